@@ -161,10 +161,28 @@ type fsReq struct {
 type faultReader struct {
 	data  []byte
 	limit int
+	err   error // what the reader fails with (a plain error when nil)
+}
+
+// the ways a request body breaks off: a plain error, a truncated transfer, a size limit put in front of the handler
+// (http.MaxBytesReader), a deadline
+func bodyFault(k int) error {
+	switch k % 4 {
+	case 1:
+		return io.ErrUnexpectedEOF
+	case 2:
+		return &http.MaxBytesError{Limit: 1}
+	case 3:
+		return os.ErrDeadlineExceeded
+	}
+	return errors.New("verif: injected body fault")
 }
 
 func (f *faultReader) Read(p []byte) (int, error) {
 	if f.limit <= 0 {
+		if f.err != nil {
+			return 0, f.err
+		}
 		return 0, errors.New("verif: injected body fault")
 	}
 	n := len(p)
@@ -175,6 +193,9 @@ func (f *faultReader) Read(p []byte) (int, error) {
 		n = len(f.data)
 	}
 	if n == 0 {
+		if f.err != nil {
+			return 0, f.err
+		}
 		return 0, errors.New("verif: injected body fault")
 	}
 	copy(p, f.data[:n])
@@ -339,7 +360,7 @@ func (sb *sandbox) do(rq fsReq) (line string, goOut string) {
 	}
 	faultTok := "n"
 	if rq.fault >= 0 {
-		rdr = &faultReader{data: []byte(body), limit: rq.fault}
+		rdr = &faultReader{data: []byte(body), limit: rq.fault, err: bodyFault(len(rq.path) + rq.fault + len(pre))}
 		faultTok = fmt.Sprint(rq.fault)
 	}
 	reqCtx := bgCtx
